@@ -24,8 +24,11 @@ def FactsOK : Bool :=
   F.allSorted && C07.mapRanges.all (fun r => r.2.2 == "sorted" || r.2.2 == "max") &&
   -- the ranges the model knows about are all present (a new, unsorted one would be listed as UNSORTED;
   -- a vanished one means the code was restructured)
-  ["target.Provides", "eps", "target.namedOutputs", "named", "commands"].all
-    (fun e => C07.mapRanges.any fun r => r.2.1 == e) &&
+  ["ruleHash", "hashMap", "BuildTarget.DeclaredOutputNames", "BuildTarget.allBuildInputs", "BuildTarget.getCommand"].all
+    (fun fn => C07.mapRanges.any fun r => r.1 == fn) &&
+  -- which dependency-list accessors sort, and which return declaration order (the source hash follows the latter)
+  C07.depOrderAccessors == [("BuildTarget.DeclaredDependencies", "sorted"), ("BuildTarget.DeclaredDependenciesStrict", "sorted"),
+    ("BuildTarget.BuildDependencies", "sorted"), ("BuildTarget.ExportedDependencies", "insertion-order")] &&
   -- UnprefixedHashes strips the algorithm prefixes on a copy, not inside target.Hashes
   !C07.unprefixedAliases
 
@@ -35,18 +38,24 @@ theorem C07_facts_ok : FactsOK = true := by decide
 theorem allSorted : F.allSorted = true := by
   have h := C07_facts_ok
   simp only [FactsOK, Bool.and_eq_true] at h
-  exact h.1.1.1
+  exact h.1.1.1.1
 
-/-- Main theorem: the rule-hash pre-image is the same for every iteration order of every map-typed field and
-    every insertion order of the dependencies (no bound on sizes). -/
-theorem C07_rule (c : Ctx) (t t' : Target) (ok : MapsOK t) (p : PermEq t t') : ruleSer F c t = ruleSer F c t' := by
+/-- PARTIAL with respect to the property (which also names the source hash and the target hash): this is the
+    *rule hash* only.  Its pre-image is the same for every iteration order of every map-typed field and every
+    insertion order of the dependencies (no bound on sizes).  Not covered by any theorem: the source hash
+    (`sourceHash` over `IterInputs`, which follows `ExportedDependencies()` in declaration order — fact
+    `depOrderAccessors`; deterministic because a BUILD file is evaluated sequentially, but not invariant under
+    reordering) and the config hash; both are observed end to end only (`e2e` ops).  `RuleHash` memoises the
+    pre-build hash on first call (assumption: the target is not edited between calls other than by
+    post-build functions, which take the non-memoised path). -/
+theorem C07_partial_rule_hash (c : Ctx) (t t' : Target) (ok : MapsOK t) (p : PermEq t t') : ruleSer F c t = ruleSer F c t' := by
   unfold ruleSer
   rw [view_perm F allSorted c ok p]
 
 /-- The same for the runtime hash (`runtime = true`): it is the same function with another context. -/
-theorem C07_rule_runtime (c : Ctx) (t t' : Target) (ok : MapsOK t) (p : PermEq t t') :
+theorem C07_partial_rule_hash_runtime (c : Ctx) (t t' : Target) (ok : MapsOK t) (p : PermEq t t') :
     ruleSer F { c with runtime := true } t = ruleSer F { c with runtime := true } t' :=
-  C07_rule _ t t' ok p
+  C07_partial_rule_hash _ t t' ok p
 
 /-- `DeclaredDependencies`: whatever order (parse order, concurrent resolution) the dependencies were added
     in, the hashed list is the same. -/
@@ -69,12 +78,17 @@ example : MapsOK t1 ∧ PermEq t1 t2 ∧ t1 ≠ t2 := by
     ⟨List.Perm.swap _ _ _, List.Perm.refl _, List.Perm.refl _, List.Perm.swap _ _ _, List.Perm.refl _,
      List.Perm.swap _ _ _, List.Perm.refl _, trivial, trivial, by decide⟩, by decide⟩
 
-/-- The sorts are *needed*: with the key sort inside `ruleHash` (or `hashMap`, or `DeclaredDependencies`)
-    removed, the two encodings above get different pre-images. -/
+def t3 : Target := { label := ⟨[], [112], [116]⟩, namedOuts := [(ka, [[111]]), (kb, [[112]])], namedSrcs := [(ka, [[120]]), (kb, [[121]])] }
+def t4 : Target := { label := ⟨[], [112], [116]⟩, namedOuts := [(kb, [[112]]), (ka, [[111]])], namedSrcs := [(kb, [[121]]), (ka, [[120]])] }
+
+/-- Every one of the five sorts is *needed*: with it removed, two encodings of the same target get different
+    pre-images (key sort inside `ruleHash`, `hashMap`, `DeclaredDependencies`, `DeclaredOutputNames`, `allBuildInputs`). -/
 theorem C07_sort_needed :
     ruleSer { F with providesSorted := false } {} t1 ≠ ruleSer { F with providesSorted := false } {} t2 ∧
     ruleSer { F with hashMapSorted := false } {} t1 ≠ ruleSer { F with hashMapSorted := false } {} t2 ∧
-    ruleSer { F with depsSorted := false } {} t1 ≠ ruleSer { F with depsSorted := false } {} t2 := by decide
+    ruleSer { F with depsSorted := false } {} t1 ≠ ruleSer { F with depsSorted := false } {} t2 ∧
+    ruleSer { F with outputNamesSorted := false } {} t3 ≠ ruleSer { F with outputNamesSorted := false } {} t4 ∧
+    ruleSer { F with buildInputsSorted := false } {} t3 ≠ ruleSer { F with buildInputsSorted := false } {} t4 := by decide
 
 /-! ### the rule hash as a function of the *definition*: output-hash checking must not rewrite the target -/
 
